@@ -755,12 +755,13 @@ class FloatEmitter:
         ('V3', 'normalize'): ('V3', 'V3.normalize {0}', []),
         ('V3', 'project_onto'): ('V3', 'V3.projectOnto {0} {1}', ['V3']),
         ('F', 'abs'): ('F', 'Scalar.abs {0}', []),
+        ('V3', 'abs'): ('V3', 'V3.abs {0}', []),
         ('F', 'sqrt'): ('F', 'Scalar.sqrt {0}', []),
         ('F', 'signum'): ('F', 'Scalar.signum {0}', []),
         ('Plane', 'project_onto'): ('V3', 'projectOnto {0} {1}', ['V3']),
         ('Sphere', 'contains'): ('B', 'contains {0} {1}', ['V3']),
     }
-    FIELDS = {('Plane', 'n'): 'V3', ('Plane', 'p'): 'V3', ('Sphere', 'center'): 'V3', ('Sphere', 'radius'): 'F',
+    FIELDS = {('HalfSpace', 'plane'): 'Plane', ('HalfSpace', 'd'): 'F', ('HalfSpace', 'errb'): 'F', ('Plane', 'n'): 'V3', ('Plane', 'p'): 'V3', ('Sphere', 'center'): 'V3', ('Sphere', 'radius'): 'F',
               ('V3', 'x'): 'F', ('V3', 'y'): 'F', ('V3', 'z'): 'F', ('V4', 'x'): 'F', ('V4', 'y'): 'F', ('V4', 'z'): 'F', ('V4', 'w'): 'F'}
     FUNCS = {'intersect_planes': ('V3', 'intersectPlanes', ['Plane', 'Plane', 'Plane'])}
 
@@ -773,6 +774,8 @@ class FloatEmitter:
             return self.self_ty
         if t in self.TYPES:
             return self.TYPES[t]
+        if t.replace(' ', '').startswith('Option<'):
+            return 'skip'          # bookkeeping parameters (right_idx, shift) do not enter the numbers
         raise Unparsed("parameter type %s" % text)
 
     def lit(self, text):
@@ -820,6 +823,8 @@ class FloatEmitter:
                 return env[e[1][0]]
             if e[1] == ['DVec4', 'ONE']:
                 return "(V4.ones : V4 α)", 'V4'
+            if len(e[1]) == 2 and e[1][0] == 'Self' and e[1][1] in getattr(self, 'consts', {}):
+                return self.consts[e[1][1]], 'F'
             raise Unparsed("path %s" % '::'.join(e[1]))
         if k == 'un':
             t, ty = self.expr(e[2], env)
@@ -906,8 +911,24 @@ class FloatEmitter:
                     raise Unparsed("arguments of %s" % f[1][0])
                 return "(%s %s)" % (name, ' '.join(a[0] for a in args)), rty
             raise Unparsed("call %s" % '::'.join(f[1]))
+        if k == 'if':
+            c, ct = self.expr(e[1], env)
+            if ct != 'B' or e[3] is None or e[2][1] or e[3][0] != 'block' or e[3][1] or e[2][2] is None or e[3][2] is None:
+                raise Unparsed("if expression form")
+            a, ta = self.expr(e[2][2], env)
+            b, tb = self.expr(e[3][2], env)
+            if ta != tb:
+                raise Unparsed("if branches of different type")
+            return "(if %s then %s else %s)" % (c, a, b), ta
         if k == 'struct':
             fields = dict(e[2])
+            if e[1] in (['HalfSpace'], ['Self']) and self.self_ty == 'HalfSpace' and {'plane', 'd', 'errb'} <= set(fields):
+                pl, tp = self.expr(fields['plane'], env)
+                dd, td = self.expr(fields['d'], env)
+                eb, te = self.expr(fields['errb'], env)
+                if (tp, td, te) != ('Plane', 'F', 'F'):
+                    raise Unparsed("HalfSpace literal")
+                return "(HalfSpaceM.mk %s %s %s)" % (pl, dd, eb), 'HalfSpace'
             if e[1] == ['DVec4'] and set(fields) == set('xyzw'):
                 parts = [self.expr(fields[c], env) for c in 'xyzw']
                 if any(p[1] != 'F' for p in parts):
@@ -928,10 +949,12 @@ class FloatEmitter:
         for (nm, ty) in params_of(params):
             if nm == 'self':
                 env['self'] = ('self_', self.self_ty)
-                binders.append("(self_ : %s α)" % self.self_ty)
+                binders.append("(self_ : %s α)" % ('HalfSpaceM' if self.self_ty == 'HalfSpace' else self.self_ty))
             else:
                 t = self.decl_type(ty)
                 env[nm] = (nm, t)
+                if t == 'skip':
+                    continue
                 binders.append("(%s : %s)" % (nm, {'F': 'α', 'V3': 'V3 α', 'V4': 'V4 α', 'Plane': 'Plane α', 'Sphere': 'Sphere α', 'B': 'Bool'}[t]))
         blk = parse_body(body)
         lines = []
@@ -971,7 +994,7 @@ class FloatEmitter:
         if blk[2] is None:
             raise Unparsed("function without a value")
         t, retty = self.expr(blk[2], env)
-        lty = {'F': 'α', 'V3': 'V3 α', 'V4': 'V4 α', 'Plane': 'Plane α', 'Sphere': 'Sphere α', 'B': 'Bool'}[retty]
+        lty = {'F': 'α', 'V3': 'V3 α', 'V4': 'V4 α', 'Plane': 'Plane α', 'Sphere': 'Sphere α', 'B': 'Bool', 'HalfSpace': 'HalfSpaceM α'}[retty]
         if mut_self:
             head = "def %s %s : %s := Id.run do" % (lean_name, ' '.join(binders), lty)
             return head + "\n" + '\n'.join(lines) + "\n  return %s\n" % t, guards
@@ -1005,6 +1028,32 @@ def gen_geom():
         out.append(text)
     return '\n'.join(out)
 
+
+def gen_halfspace():
+    src = strip_attrs_cfg(read('src/voronoi/half_space.rs'))
+    toks = tokenize(src)
+    hs, he = find_impl(toks, ['HalfSpace'])
+    body = toks[hs:he]
+    # const EPSILON: f64 = <lit>;
+    eps = None
+    for i in range(len(body) - 6):
+        if body[i][1] == 'const' and body[i + 1][1] == 'EPSILON':
+            j = i
+            while body[j][1] != '=':
+                j += 1
+            eps = body[j + 1][1]
+    if eps is None:
+        raise Unparsed("const EPSILON not found")
+    out = ["variable {α : Type} [Add α] [Sub α] [Mul α] [Div α] [Neg α] [NatCast α] [Scalar α]", ""]
+    for lean_name, rust_name in (('halfSpaceNew', 'new'), ('halfSpaceClip', 'clip')):
+        params, fbody, _ = find_fn(body, rust_name)
+        fe = FloatEmitter('HalfSpace')
+        fe.consts = {'EPSILON': fe.lit(eps)}
+        text, guards = fe.function(lean_name, params, fbody, False)
+        out.append("/-- `HalfSpace::%s` -/" % rust_name)
+        out.append(text)
+    return '\n'.join(out)
+
 # --------------------------------------------------------------------------
 FRAGMENTS = [
     # (module name, source files, generator, imports)
@@ -1014,6 +1063,7 @@ FRAGMENTS = [
     ('Space', ['src/space.rs'], gen_space, []),
     ('Par', ['src/voronoi.rs'], gen_par, []),
     ('Geom', ['src/geometry.rs'], gen_geom, ['MVoro.Model.Geom']),
+    ('HalfSpace', ['src/voronoi/half_space.rs'], gen_halfspace, ['MVoro.Model.Geom']),
 ]
 
 
@@ -1022,6 +1072,7 @@ STUBS = {
     'InSphere': "def inSphereDet (a b c d v : I3 Int) : Int := 0\n" + ''.join("def signExtract_%s (determinant : Int) : Int := 0\n" % b for b in BACKENDS),
     'Face': "def clipNormalSign : Int := 0\ndef storedNormalSign : Int := 0\n",
     'Geom': "",
+    'HalfSpace': "",
     'Par': "def parLoops : List (List String) := []\ndef seqLoops : List (List String) := []\ndef sharedStateHits : List String := []\ndef featureOnlyItems : List String := []\n",
     'Space': "def cellLocAxes : List Nat := []\ndef closestLocAxes : List (Nat × Nat × Nat) := []\ndef minDistToFaceWidthAxes : List Nat := []\n",
     'Grid': "def gridPad : Rat := 0\ndef gridSpan : Rat := 1\ndef mantissaMask : Nat := 0\ndef gridSharedScale : Bool := false\n",
